@@ -70,6 +70,7 @@ class IndexState:
         if self.sequential != self.payloads:
             cc.dev('sequential==model', 'sequential-read-differs', 'C01 oracle fails on this file')
         self.mon = Monitor(data)
+        self.mon.seek(engine.handle(data).tell())   # the handle is where its previous user left it
         self.index = Index.LogicalRecordIndex(self.mon)
         self.index._enter()
         self.entered = True
